@@ -21,7 +21,8 @@ def make(prop):
         v = r['verdicts'][prop]
         return {'violation': v, 'digest': r['digest'], 'log': r['log'], 'counters': r['counters'],
                 'ticks': r['ticks'], 'key': r['key'], 'nontrivial': r['nontrivial'],
-                'summary': {'D': r['D'], 'outcomes': '/'.join(r['outcomes']), 'mode': case['mode']}}
+                'summary': dict(r['extra_summary'], D=r['D'], outcomes='/'.join(r['outcomes']),
+                                mode=case['mode'])}
 
     def minimize(case, fails):
         return streamsim.minimize(case, fails)
